@@ -42,6 +42,7 @@ def fn_spec(draw, d):
     s = {'family': fam, 'index': draw(st.integers(0, d - 1))}
     if fam == 'monomial':
         s['exponent'] = draw(st.integers(1, 3))
+        s['prefactor'] = draw(st.sampled_from([1.0, 1.0, 2.5, -0.5]))
     elif fam == 'legendre':
         s['degree'] = draw(st.integers(1, 4))
     elif fam in ('sin', 'cos'):
@@ -61,6 +62,8 @@ def make_fn(s, d):
     if fam == 'identity':
         return tdt.Identity(i, dimension=d)
     if fam == 'monomial':
+        if s.get('prefactor', 1.0) != 1.0:
+            return tdt.Monomial(i, s['exponent'], prefactor=s['prefactor'], dimension=d)
         return tdt.Monomial(i, s['exponent'], dimension=d)
     if fam == 'legendre':
         return tdt.Legendre(i, s['degree'], dimension=d)
@@ -79,8 +82,8 @@ def g012(s, t):
     if fam == 'identity':
         return t, 1.0, 0.0
     if fam == 'monomial':
-        e = s['exponent']
-        return t ** e, e * t ** (e - 1), (e * (e - 1) * t ** (e - 2) if e >= 2 else 0.0)
+        e, c_ = s['exponent'], float(s.get('prefactor', 1.0))
+        return c_ * t ** e, c_ * e * t ** (e - 1), (c_ * e * (e - 1) * t ** (e - 2) if e >= 2 else 0.0)
     if fam == 'legendre':
         c = np.zeros(s['degree'] + 1)
         c[-1] = 1
@@ -146,6 +149,8 @@ def common_labels(c):
         lab.add('arrays_' + c['num_form'])
     if c.get('special_points'):
         lab.add('snapshots_on_special_points')
+    if c.get('zero_drift') and not c.get('reversible', True):
+        lab.add('zero_drift_array')
     return lab
 
 
@@ -197,7 +202,7 @@ def tgedmd_case(draw):
               'return_option': draw(st.sampled_from(['eigenfunctionevals', 'eigenvectors', 'eigentensors'])),
               'num_eigvals': draw(st.sampled_from([None, None, 1, 2, 3])),
               # snapshots exactly on special points of the basis functions (lattice data): zeros of factors, stationary points
-              'special_points': draw(st.sampled_from([False, False, True]))})
+              'special_points': draw(st.sampled_from([False, False, True])), 'zero_drift': draw(st.sampled_from([False, False, False, True]))})
     return c
 
 
@@ -222,6 +227,8 @@ def body_tgedmd(c):
                     X[sp['index'], int(rng.integers(m))] = sp['mean']      # maximum of a Gauss bump
     sigma = rng.standard_normal((d, d2, m))
     b = None if c['reversible'] else rng.standard_normal((d, m))
+    if b is not None and c.get('zero_drift'):
+        b = np.zeros((d, m))             # "for any drift": a drift array that vanishes identically is still the non-reversible estimator
     if c.get('num_form') == 'int':
         # integer-typed drift and diffusion arrays (the snapshots stay generic: integer snapshots make Psi degenerate)
         sigma = rng.integers(-2, 3, (d, d2, m)).astype(np.int64)
